@@ -2,16 +2,21 @@
    Property theorems only.  MODE / WHITE / BLACK are regenerated from every BitParser.add call of
    pdfminer/ccitt.py (Gen/CCITTTables.v); Spec/T6Tables.v holds the ITU-T T.4 / T.6 tables typed
    from the Recommendations; Model/CCITT.v mirrors BitParser and CCITTG4Parser.
-   PROVED: (a) the code layer: tables = Recommendations, prefix-freeness, trie walk, run lengths as sums of make-up
-   and terminating codes, bit packing; (b) the mode layer (C19_row, C19_page): for every bitmap of any width and
-   height and EVERY admissible choice of pass / vertical / horizontal elements (T.6 2.2: b1, b2 on the reference
-   row, a1, a2 on the coding row, stated declaratively and independently of the decoder's search loops), executing
-   the decoder's reaction to each element rebuilds exactly the rows, in order; every bitmap has such a coding.
-   NOT PROVED (correspondence and exhaustive small bitmaps only): the glue between (a) and (b), i.e. that the bit
-   string of an element drives parse_bit to exactly that element's reaction, and EncodedByteAlign skipping. *)
+   PROVED, for encodings without EncodedByteAlign (either polarity): the whole chain.
+   (a) code layer: tables = Recommendations, prefix-freeness, trie walk, run lengths as sums of make-up and
+   terminating codes, bit packing; (b) mode layer (C19_row, C19_page): for every bitmap of any width and height and
+   EVERY admissible choice of pass / vertical / horizontal elements (T.6 2.2: b1, b2 on the reference row, a1, a2 on
+   the coding row, stated declaratively and independently of the decoder's search loops), executing the decoder's
+   reaction to each element rebuilds exactly the rows, in order; (c) glue (C19_element_bits, C19_bytes): the bit
+   string of an element - mode code, and for horizontal elements ANY make-up/terminating decomposition of the two
+   run lengths - drives the bit-level parser to that reaction, so the bytes of any such encoding, padded with up to
+   seven zero bits, make ccittfaxdecode return the rows packed by output_line; (d) C19_every_bitmap_round_trips:
+   every bitmap has such an encoding.
+   NOT PROVED (correspondence and exhaustive small bitmaps only): EncodedByteAlign = true (the ByteSkip path),
+   the EOFB marker after the last row, and the Flate-style wrapper PDFStream applies around the decoder. *)
 From Coq Require Import ZArith List Bool.
 From PdfV Require Import Base.CV Gen.CCITTTables Spec.T6Tables Model.CCITT Model.CCITTRun Proofs.CCITTProofs
-  Proofs.CCITTModeProofs.
+  Proofs.CCITTModeProofs Proofs.CCITTGlueProofs Proofs.CCITTEncode.
 Import ListNotations.
 Open Scope Z_scope.
 
@@ -82,6 +87,23 @@ Example C19_modes_nonvacuous :
   curline (fold_left apply_op ops (mkG4 8 false ref (white_line 8) (-1) 1 [] TMode AMode [] 0 0)) = row.
 Proof. exact coding_example. Qed.
 
+(* glue: the bits of one element, read from a state between elements, produce the decoder's reaction to it *)
+Theorem C19_element_bits : forall s o bits, ready s -> galign s = false -> elem_code (gcolor s) o bits ->
+  exists x, feed_bits s bits = BCont x /\ ready x /\ core x = core (apply_flush s o).
+Proof. exact elem_feeds. Qed.
+
+(* the chain down to bytes: any admissible coding, any code decomposition, zero padding to the byte boundary *)
+Theorem C19_bytes : forall w rows ops bits data k reversed, 0 < w ->
+  page_coding (white_line w) rows ops -> ops_bits (g4_init w false) ops bits ->
+  flat_map bits_of_byte data = bits ++ repeat false k -> (k <= 7)%nat ->
+  ccittfaxdecode data w false reversed = DOk (flat_map (output_line reversed) rows).
+Proof. exact g4_bytes_decode. Qed.
+
+Theorem C19_every_bitmap_round_trips : forall w rows reversed, 0 < w ->
+  Forall (fun r => length r = Z.to_nat w /\ bin r) rows ->
+  exists data, ccittfaxdecode data w false reversed = DOk (flat_map (output_line reversed) rows).
+Proof. exact every_bitmap_round_trips. Qed.
+
 From Coq Require Import String.
 Open Scope string_scope.
 (* non-vacuity: a 2560+64+58-pixel white run needs two make-up codes; and a two-row bitmap through the decoder *)
@@ -108,3 +130,6 @@ Print Assumptions C19_row.
 Print Assumptions C19_page.
 Print Assumptions C19_every_page_has_a_coding.
 Print Assumptions C19_modes_nonvacuous.
+Print Assumptions C19_element_bits.
+Print Assumptions C19_bytes.
+Print Assumptions C19_every_bitmap_round_trips.
